@@ -27,7 +27,7 @@
 (*                                                                         *)
 (* sig (only for why = "cycle"): the link that closed the cycle made a      *)
 (* root x the child of a node y that is no longer a root and whose rank     *)
-(* field was OVERWRITTEN when y itself was linked (its rank changed in the  *)
+(* field was OVERWRITTEN when y itself was linked (its rank grew in the     *)
 (* step that gave it a parent) - the observable signature of the known      *)
 (* finding "lost-union-rank-overwrite" (unionNodes stores the new parent's  *)
 (* rank in the child and later trusts that field).                          *)
@@ -38,7 +38,7 @@ VARIABLES l,        \* next event
           job,      \* current history
           dead,     \* the current history has been rejected
           ppar, prk,\* last observed arrays
-          ow,       \* nodes whose rank field changed in the step that linked them
+          ow,       \* nodes whose rank field grew in the step that linked them
           rej       \* number of rejections so far
 tvars == <<l, S, req, job, dead, ppar, prk, ow, rej, part, pend>>
 
@@ -86,7 +86,7 @@ TNext == /\ l <= Len(TraceData)
                    /\ req' = IF Kind = "call" /\ Ev[3] = "u" THEN req \cup {<<Ev[4], Ev[5]>>} ELSE req
                    /\ IF Kind = "st"
                         THEN /\ ppar' = EvPar /\ prk' = EvRk
-                             /\ ow' = ow \cup {n \in Linked(EvPar) : EvRk[n + 1] # prk[n + 1]}
+                             /\ ow' = ow \cup {n \in Linked(EvPar) : EvRk[n + 1] > prk[n + 1]}
                         ELSE UNCHANGED <<ppar, prk, ow>>
                    /\ job' = job
                    /\ IF nS = {}
